@@ -215,7 +215,14 @@ fn hmac_input() -> passkey_types::ctap2::extensions::HmacGetSecretInput {
 
 // ---------------------------------------------------------------- running a case
 
-pub enum Op { Make(MakeOp), Get(GetOp) }
+pub enum Op { Make(MakeOp), Get(GetOp), Info }
+
+/// C18: run the operations through `<Authenticator as Ctap2Api>` instead of the direct methods
+pub static VIA_TRAIT: std::sync::atomic::AtomicBool = std::sync::atomic::AtomicBool::new(false);
+/// write `ANNOUNCE <op>` to stderr before running an operation (a parent process reads it if this one dies)
+pub static ANNOUNCE: std::sync::atomic::AtomicBool = std::sync::atomic::AtomicBool::new(false);
+fn via_trait() -> bool { VIA_TRAIT.load(std::sync::atomic::Ordering::Relaxed) }
+fn announce(op: &str) { if ANNOUNCE.load(std::sync::atomic::Ordering::Relaxed) { eprintln!("ANNOUNCE {}", op); } }
 pub struct Step { pub op: Op, pub uv: UvState, pub faults: Vec<Option<u8>>, /// `Some(k)`: poll the future at most k times, then drop it (cancellation)
     pub cancel_after: Option<usize> }
 
@@ -252,8 +259,11 @@ fn run_generic<S: Inner + 'static>(ctx: &mut Ctx, prop: &str, w: &World, inner: 
         match &st.op {
             Op::Make(m) => {
                 let req = m.real(Some(hmac_input()));
+                announce(&format!("au.make {} {} {} N{}{}", m.enc(), st.uv.enc(), faults_s(&st.faults), cancel, tw));
                 let res = guarded(|| {
                     match st.cancel_after {
+                        // the trait is named by path: importing it would change what `auth.make_credential` resolves to
+                        None if via_trait() => Some(block_on(passkey_authenticator::Ctap2Api::make_credential(&mut auth, req))),
                         None => Some(block_on(auth.make_credential(req))),
                         Some(k) => { let mut fut = Box::pin(auth.make_credential(req)); poll_n(fut.as_mut(), k) }
                     }
@@ -280,8 +290,11 @@ fn run_generic<S: Inner + 'static>(ctx: &mut Ctx, prop: &str, w: &World, inner: 
                 }
                 let g = &g1;
                 let req = g.real(Some(hmac_input()));
+                announce(&format!("au.get {} {} {}{}{}", g.enc(), st.uv.enc(), faults_s(&st.faults), cancel, tw));
                 let res = guarded(|| {
                     match st.cancel_after {
+                        // `&mut auth` coerces to `&auth` if the trait method takes `&self`
+                        None if via_trait() => Some(block_on(passkey_authenticator::Ctap2Api::get_assertion(&mut auth, req))),
                         None => Some(block_on(auth.get_assertion(req))),
                         Some(k) => { let mut fut = Box::pin(auth.get_assertion(req)); poll_n(fut.as_mut(), k) }
                     }
@@ -294,6 +307,17 @@ fn run_generic<S: Inner + 'static>(ctx: &mut Ctx, prop: &str, w: &World, inner: 
                 let obs = format!("res={} ev={} store={}", r, if ev.is_empty() { "-".into() } else { ev }, snap(&auth.store().inner.all()));
                 ctx.stat(&format!("au.get.{}", r.split(':').next().unwrap()));
                 ctx.line(&format!("au.get {} {} {}{}{}", g.enc(), st.uv.enc(), faults_s(&st.faults), cancel, tw), &obs);
+            }
+            Op::Info => {
+                announce(&format!("au.info {}", st.uv.enc()));
+                let res = guarded(|| if via_trait() { block_on(passkey_authenticator::Ctap2Api::get_info(&auth)) } else { block_on(auth.get_info()) });
+                let r = match res { None => "panic".to_string(), Some(i) => {
+                    let o = i.options.as_ref();
+                    format!("ok:{}:{}:{}:{}:{}", i.extensions.as_ref().map(|e| e.iter().any(|x| matches!(x, passkey_types::ctap2::get_info::Extension::Prf)) as u8).unwrap_or(0),
+                        o.map(|o| o.rk as u8).unwrap_or(9), o.map(|o| match o.uv { None => 'n', Some(false) => 'f', Some(true) => 't' }).unwrap_or('?'), o.map(|o| o.up as u8).unwrap_or(9), hexf(&i.aaguid.0)) } };
+                let ev = log.lock().unwrap().join(";");
+                ctx.stat("au.info");
+                ctx.line(&format!("au.info {}", st.uv.enc()), &format!("res={} ev={} store={}", r, if ev.is_empty() { "-".into() } else { ev }, snap(&auth.store().inner.all())));
             }
         }
     }
